@@ -41,6 +41,8 @@ REPO = os.environ.get("BITS_REPO", "/repo")
 REPO_SRC = os.path.join(REPO, "src")
 PY = "/venv/bin/python"
 WORK = os.path.join(VERIF, ".work")
+# evidence goes to /verif/evidence unless a test driver (tools/seedtest.sh) redirects it
+EVIDENCE_DIR = os.environ.get("VERIF_EVIDENCE_DIR") or os.path.join(VERIF, "evidence")
 def modelrun_path(prop_id):
     return os.path.join(VERIF, "bin", "modelrun_" + prop_id.lower())
 
@@ -536,7 +538,7 @@ def run_check(prop_id, tier="quick", seed=0, replay=None):
     sys.path.insert(0, os.path.join(VERIF, "harness"))
     prop = importlib.import_module(prop_id.lower())
     os.makedirs(WORK, exist_ok=True)
-    os.makedirs(os.path.join(VERIF, "evidence"), exist_ok=True)
+    os.makedirs(EVIDENCE_DIR, exist_ok=True)
     os.makedirs(os.path.join(VERIF, "replays"), exist_ok=True)
     if replay:
         return run_replay(prop, replay)
@@ -771,7 +773,7 @@ def run_check(prop_id, tier="quick", seed=0, replay=None):
     }
     if "coqchk" in ob:
         ev["coverage"]["coqchk_tail"] = ob["coqchk"][-1500:]
-    json.dump(ev, open(os.path.join(VERIF, "evidence", prop_id + ".json"), "w"), indent=1)
+    json.dump(ev, open(os.path.join(EVIDENCE_DIR, prop_id + ".json"), "w"), indent=1)
     for l in known_lines:
         print(l)
     for l in lines:
